@@ -7,4 +7,4 @@ From KV Require Import Model.GroupReader.
 Extraction Language OCaml.
 Extraction "c03_model.ml"
   step init rd_init co_init makeCommits merge store fetch_raw start_of_raw resolve_start
-  check_event check_hist C03_holds lost_b hist_committed tp_eqb lookup.
+  check_event check_hist C03_holds lost_b assignment_covers_existing_b all_delivered_b hist_committed tp_eqb lookup.
